@@ -222,6 +222,14 @@ def trackOp (st : DState) (args : List String) : DState × String :=
       | .err e => (st, s!"ERR {e.name}")
       | .panic p => (st, s!"PANIC {p}")
     | none => (st, "BADOP")
+  | ["actq", h] => match parseBuf h with
+    | some B => match decode B with
+      | .ok f =>
+        let (s', added) := action (geoF st.rx st.range) true st.now st.planes f.df
+        ({ st with planes := s', stats := st.stats.update s'.length added }, s!"ADDEDQ {if added then "yes" else "no"} n={s'.length}")
+      | .err e => (st, s!"ERR {e.name}")
+      | .panic p => (st, s!"PANIC {p}")
+    | none => (st, "BADOP")
   | ["age", ms] => match ms.toNat? with
     | some d => ({ st with now := st.now + d }, "OK")
     | none => (st, "BADOP")
